@@ -2,6 +2,7 @@
 and the verified feasibility checker `isFeasible` of Solvor/Lp."""
 from __future__ import annotations
 
+import json
 import warnings
 
 import core
@@ -31,7 +32,9 @@ RULE = ("small MILPs with integer data in -5..9, 2-5 variables (6 thorough), eve
         "(phase 1), implicit binary, parity-infeasible, relaxation-unbounded; both senses; each instance run "
         "under 6 configurations (default, heuristics off, LNS, warm start feasible/infeasible/wrong length and "
         "adversarial: one clause of _is_feasible violated in an objective-improving direction, "
-        "solution_limit 2/5, small max_nodes); non-trivial = the default run explored >= 2 nodes; "
+        "solution_limit 2/5, small max_nodes, max_iter just above the largest single-node pivot count); families "
+        "also scaled single-variable bound rows k x_j <= k (k of both signs) on every integer variable, and (thorough) "
+        "large-tree knapsacks judged through the certified mirror; non-trivial = the default run explored >= 2 nodes; "
         "distinct by canonical (c, A, b, integers, minimize)")
 
 MISSING = []   # Lp.Bnb mirror + refinement (bnb_mirror_refines / bnb_mirror_sound / solveMilp_sound) are proved; the
@@ -47,9 +50,70 @@ MAX_BOX = 4000
 # generator
 # ---------------------------------------------------------------------------
 
+def gen_scaled(rng, n, minimize_hint):
+    """every integer variable owns a single-variable row whose coefficient equals its right-hand side
+    (k x_j <= k: x_j <= 1 for k > 0, x_j >= 1 for k < 0; k in {1, 2, 3, 0.5, -1, -2, -0.5}); a covering row with a
+    fractional root relaxation makes the optimum need x_j >= 2 on the lower-bounded variables; a cap row bounds the
+    box.  Only k = 1 rows are binary bounds for `_detect_binary`."""
+    n = min(n, 4)
+    if rng.random() < 0.5:
+        # the relaxation stays inside [0,1] (lower-bounded variables at 1, a cheaper-per-unit upper-bounded variable
+        # fractional) while the integer optimum needs a lower-bounded variable at 2: misreading `-x_j <= -1` (or any
+        # scaled k x_j <= k) as a binary bound changes the answer
+        for _ in range(50):
+            nl = rng.randint(1, max(1, n - 1)); nu = n - nl
+            if nu < 1:
+                continue
+            al = [rng.randint(2, 3) for _ in range(nl)]; cl = [rng.randint(4, 6) for _ in range(nl)]
+            au = [a + rng.randint(1, 2) for a in (al * n)[:nu]]
+            cu = [c0 + rng.randint(1, 2) for c0 in (cl * n)[:nu]]
+            if all(cu[t] * al[0] < cl[0] * au[t] for t in range(nu)):
+                break
+        else:
+            nl, nu, al, cl, au, cu = 1, n - 1, [2], [5], [3] * (n - 1), [6] * (n - 1)
+        r_ = rng.randint(1, al[0])
+        kl = [rng.choice([-1, -1, -2, -0.5]) for _ in range(nl)]
+        ku = [rng.choice([1, 1, 2, 0.5]) for _ in range(nu)]
+        a = al + au; c = cl + cu; ks = kl + ku
+        A = [[ks[j] if t == j else 0 for t in range(n)] for j in range(n)]
+        b = list(ks)
+        A.insert(rng.randrange(n + 1), [-v for v in a]); b.insert(A.index([-v for v in a]), -(sum(al) + r_))
+        A.append([1] * n); b.append(n + 3)
+        perm = list(range(n)); rng.shuffle(perm)              # do not keep the L / U variables in a fixed order
+        A = [[row[perm[t]] for t in range(n)] for row in A]; c = [c[perm[t]] for t in range(n)]
+        return {"family": "scaled", "c": c, "A": A, "b": b, "integers": list(range(n)), "minimize": True}
+    ints = list(range(n)) if rng.random() < 0.7 else sorted(rng.sample(range(n), max(1, n - 1)))
+    style = rng.choice(["all_neg", "mixed", "mixed", "all_pos_scaled", "all_one"])
+    A, b = [], []
+    for j in ints:
+        if style == "all_neg":
+            k = rng.choice([-1, -1, -2, -0.5])
+        elif style == "all_pos_scaled":
+            k = rng.choice([2, 3, 0.5, 2])
+        elif style == "all_one":
+            k = 1
+        else:
+            k = rng.choice([-1, -1, 1, 2, -2, 0.5])
+        A.append([k if t == j else 0 for t in range(n)]); b.append(k)
+    a = [rng.randint(1, 4) for _ in range(n)]
+    lo = sum(a[j] for j in range(n))
+    d = lo + rng.randint(1, 2 * n)               # needs some x_j >= 2
+    pos = rng.randrange(len(A) + 1)
+    A.insert(pos, [-v for v in a]); b.insert(pos, -d)       # a.x >= d
+    A.append([1] * n); b.append(rng.randint(n + 2, 2 * n + 4))   # cap
+    c = [a[j] + rng.randint(1, 4) for j in range(n)]
+    minimize = True
+    if not minimize_hint:
+        c = [-v for v in c]; minimize = False
+    return {"family": "scaled", "c": c, "A": A, "b": b, "integers": ints, "minimize": minimize}
+
+
 def gen_instance(rng, big):
     n = rng.randint(2, 6 if big else 5)
-    fam = rng.choice(["knapsack", "general", "hard", "hard", "covering", "implicit", "parity", "unbounded", "mixed"])
+    fam = rng.choice(["knapsack", "general", "hard", "hard", "covering", "implicit", "parity", "unbounded", "mixed",
+                      "scaled", "scaled"])
+    if fam == "scaled":
+        return gen_scaled(rng, n, minimize_hint=rng.random() < 0.7)
     r = rng.random()
     if r < 0.15:
         ints = list(range(n))
@@ -273,14 +337,90 @@ def filter_points(c, A, b, ints, minimize, x0, eps):
     return pts[:40]
 
 
+def detbin_sets(case):
+    """row sets on which `solvor.milp._detect_binary` itself is compared with the mirror `detectBinary`:
+    single-variable rows k x_j <= r on the integer variables with (k, r) = (1, 1), scaled (k, k) incl. negative k,
+    sign flips, values at eps/2 and 2 eps from each threshold, a tiny second coefficient, a missing / duplicated
+    bound – alone or on top of the instance's own rows"""
+    import hashlib
+    import random as _r
+    seed = int(hashlib.sha1(json.dumps([case["c"], case["A"], case["b"], case["integers"]],
+                                       default=str).encode()).hexdigest()[:8], 16)
+    rng = _r.Random(seed)
+    n = len(case["c"])
+    ints = list(case["integers"]) or [0]
+    e = EPS
+    pats = [("one", 1, 1), ("k2", 2, 2), ("k3", 3, 3), ("khalf", 0.5, 0.5), ("kneg1", -1, -1), ("kneg2", -2, -2),
+            ("flip_coef", -1, 1), ("flip_rhs", 1, -1), ("rhs_in", 1, 1 + e / 2), ("rhs_out", 1, 1 + 2 * e),
+            ("rhs_in_lo", 1, 1 - e / 2), ("rhs_out_lo", 1, 1 - 2 * e), ("coef_in", 1 + e / 2, 1),
+            ("coef_out", 1 + 2 * e, 1), ("coef_out_lo", 1 - 2 * e, 1), ("zero", 0, 1)]
+    sets = []
+
+    def build(label, choose, extra=None, with_base=False, drop=None, dup=False):
+        A = [list(r) for r in case["A"]] if with_base else []
+        b = list(case["b"]) if with_base else []
+        for j in ints:
+            if j == drop:
+                continue
+            k, r = choose(j)
+            row = [0] * n
+            row[j] = k
+            if extra is not None and n > 1:
+                row[(j + 1) % n] = extra
+            A.append(row); b.append(r)
+            if dup:
+                A.append(list(row)); b.append(r)
+        if not A:
+            A, b = [[0] * n], [0]
+        sets.append((label, A, b, ints, n))
+
+    for name, k, r in pats:
+        build(name, lambda j, k=k, r=r: (k, r), with_base=rng.random() < 0.4)
+    build("missing", lambda j: (1, 1), drop=ints[-1])
+    build("dup", lambda j: (1, 1), dup=True)
+    build("tiny_in", lambda j: (1, 1), extra=e / 2)
+    build("tiny_out", lambda j: (1, 1), extra=2 * e)
+    for t in range(4):
+        build(f"mixed{t}", lambda j: rng.choice(pats)[1:], with_base=rng.random() < 0.5)
+    sets.append(("instance", [list(r) for r in case["A"]], list(case["b"]), list(case["integers"]), n))
+    return sets
+
+
+def measure_node_pivots(case):
+    """largest `iterations` of a single `solve_lp` call during the implementation's own default heuristics=False
+    run (observed by wrapping the module-level name `solvor.milp.solve_lp` for the duration of that call)"""
+    import solvor.milp as mm
+    seen = [0]
+    orig = mm.solve_lp
+
+    def rec(*a, **k):
+        r = orig(*a, **k)
+        seen[0] = max(seen[0], int(r.iterations))
+        return r
+    mm.solve_lp = rec
+    try:
+        mm.solve_milp(list(case["c"]), [list(r_) for r_ in case["A"]], list(case["b"]), list(case["integers"]),
+                      minimize=case["minimize"], heuristics=False)
+    except Exception:  # noqa: BLE001 - the measured run's own failures are judged elsewhere
+        pass
+    finally:
+        mm.solve_lp = orig
+    return seen[0]
+
+
 def impl(case):
     warnings.simplefilter("ignore")
-    from solvor.milp import solve_milp, _is_feasible
+    from solvor.milp import solve_milp, _is_feasible, _detect_binary
     c, A, b, ints = case["c"], case["A"], case["b"], case["integers"]
     outs = []
     base_x = None
+    k_impl = None
     for k, cfg in enumerate(case["configs"]):
-        kw = {key: v for key, v in cfg.items() if key != "warm"}
+        kw = {key: v for key, v in cfg.items() if key not in ("warm", "max_iter_auto")}
+        if "max_iter_auto" in cfg:
+            if k_impl is None:
+                k_impl = measure_node_pivots(case)
+            kw["max_iter"] = max(cfg["max_iter_auto"][0], k_impl) + 2 + cfg["max_iter_auto"][1]
         w = cfg.get("warm")
         if w is not None:
             x0 = list(base_x) if base_x is not None else [0.0] * len(c)
@@ -294,6 +434,7 @@ def impl(case):
         try:
             r = _res(solve_milp(list(c), [list(r_) for r_ in A], list(b), list(ints), minimize=case["minimize"], **kw))
             r["warm_used"] = kw.get("warm_start")
+            r["max_iter_used"] = kw.get("max_iter")
             if k == 0 and r["x"] is not None:
                 base_x = r["x"]
             outs.append(("ok", r))
@@ -308,7 +449,14 @@ def impl(case):
         except Exception as e:  # noqa: BLE001
             v = f"{type(e).__name__}: {e}"
         filt.append((label, x, v))
-    return {"runs": outs, "filter": filt}
+    det = []
+    for label, A2, b2, ints2, n2 in detbin_sets(case):
+        try:
+            v = bool(_detect_binary([list(r_) for r_ in A2], list(b2), set(ints2), n2, EPS))
+        except Exception as e:  # noqa: BLE001
+            v = f"{type(e).__name__}: {e}"
+        det.append((label, A2, b2, ints2, n2, v))
+    return {"runs": outs, "filter": filt, "detbin": det}
 
 
 DEFAULT_MAX_NODES = 100_000
@@ -325,7 +473,8 @@ def bnb_requests(case, out):
             continue
         warm = o[1].get("warm_used")
         reqs.append((k, ["bnb", enc_vec(case["c"]), enc_mat(case["A"]), enc_vec(case["b"]),
-                         sorted(case["integers"]), bool(case["minimize"]), rat(EPS), DEFAULT_MAX_ITER,
+                         sorted(case["integers"]), bool(case["minimize"]), rat(EPS),
+                         int(o[1].get("max_iter_used") or cfg.get("max_iter", DEFAULT_MAX_ITER)),
                          int(cfg.get("max_nodes", DEFAULT_MAX_NODES)), rat(GAP_TOL),
                          int(cfg.get("solution_limit", 1)), (enc_point(warm) if warm is not None else None)]))
     return reqs
@@ -339,7 +488,7 @@ def judge_trace(ctx, case, cfg, o, rp):
     """R_trace: the step-by-step mirror `solveMilp` returns the same Result as solve_milp(heuristics=False)."""
     fn = "solve_milp"
     r = o[1]
-    st, x, obj, _nodes, sols, near, nodes_ok = rp
+    st, x, obj, _nodes, sols, near, nodes_ok, _lp_it = rp
     # per-input discharge of the refinement theorem's hypothesis (every explored node LP certificate-checked)
     ctx.count("refinement_nodes_certified" if nodes_ok else "refinement_nodes_uncertified")
     same = st == r["status"]
@@ -353,6 +502,27 @@ def judge_trace(ctx, case, cfg, o, rp):
     if same:
         same = len(sols) == len(r["sols"]) and all(
             len(a) == len(b) and all(close(u, v) for u, v in zip(a, b)) for a, b in zip(r["sols"], sols))
+    # R_prop through the certified mirror: with every node LP certificate-checked (`nodes_ok`), solveMilp_sound makes
+    # the mirror's INFEASIBLE / OPTIMAL value the truth for this input, whatever path the implementation took
+    cut = "max_nodes" in cfg or cfg.get("solution_limit", 1) > 1
+    if nodes_ok and not cut and st in ("OPTIMAL", "INFEASIBLE"):
+        ctx.count("certified_by_mirror")
+        rp2 = {"case": case, "config": cfg, "impl": {k: r[k] for k in ("status", "x", "obj")},
+               "mirror": {"status": st, "obj": (obj and float(core.unrat(obj)))}}
+        if st == "INFEASIBLE" and r["status"] in ("OPTIMAL", "FEASIBLE"):
+            ctx.fail(fn, "solution_for_infeasible", f"[{cfg_name(cfg)}] {r['status']} although the certified mirror "
+                     "proves that no integer-feasible point exists", rp2)
+        elif st == "OPTIMAL" and r["status"] == "INFEASIBLE":
+            ctx.fail(fn, "false_infeasible", f"[{cfg_name(cfg)}] INFEASIBLE, certified optimum "
+                     f"{float(core.unrat(obj))}", rp2)
+        elif st == "OPTIMAL" and r["status"] == "OPTIMAL" and finite(r["obj"]):
+            sum_c = sum(abs(core.frac(v)) for v in case["c"])
+            V = core.unrat(obj)
+            tol = 2 * (core.frac(GAP_TOL) * (1 + abs(V)) + core.frac(EPS) * (1 + sum_c) + core.frac(TOL_OBJ))
+            sgn = 1 if case["minimize"] else -1
+            if sgn * (core.frac(r["obj"]) - V) > tol:
+                ctx.fail(fn, "not_optimal", f"[{cfg_name(cfg)}] OPTIMAL with objective {r['obj']}, the certified "
+                         f"mirror's optimum is {float(V)}", rp2)
     if same:
         ctx.count("r_trace_agree")
         if _nodes == r["nodes"]:
@@ -415,6 +585,28 @@ def judge_filter(ctx, case, filt, verdicts):
         else:
             ctx.fail(fn, "rejects_feasible", f"_is_feasible rejected {x} [{lab}] which satisfies every clause "
                      "within eps", rp)
+
+
+def judge_detbin(ctx, case, det, verdicts):
+    """`solvor.milp._detect_binary` against the mirror `detectBinary` (the function binary_tightening_sound is about)"""
+    fn = "_detect_binary"
+    for (label, A2, b2, ints2, n2, v), (lo, mid, hi) in zip(det, verdicts):
+        ctx.count("detbin_sets")
+        rp = {"case": case, "rows": {"A": A2, "b": b2, "integers": ints2, "n": n2}, "label": label, "impl": v,
+              "mirror": [lo, mid, hi]}
+        if not isinstance(v, bool):
+            ctx.fail(fn, "raises:" + str(v).split(":", 1)[0], f"_detect_binary raised on [{label}]: {v}", rp)
+        elif not (lo == mid == hi):
+            ctx.count("detbin_boundary_skipped")
+        elif v == mid:
+            ctx.count("detbin_agree:" + ("binary" if v else "not_binary"))
+        elif v:
+            ctx.fail(fn, "detect_binary_accepts:" + label.rstrip("0123456789"),
+                     f"_detect_binary reads rows [{label}] {A2} <= {b2} as explicit x_j <= 1 bounds of {ints2}; they are "
+                     "not (mirror detectBinary, for which binary_tightening_sound is proved, rejects them)", rp)
+        else:
+            ctx.fail(fn, "detect_binary_rejects:" + label.rstrip("0123456789"),
+                     f"_detect_binary rejects rows [{label}] that are explicit x_j <= 1 bounds of {ints2}", rp)
 
 
 def judge(ctx, case, out, reply):
@@ -519,9 +711,14 @@ def run_cases(ctx, cases):
     raw = run_pool(impl, cases, timeout=120.0)
     outs = [("ok", o[1]["runs"]) if o[0] == "ok" else o for o in raw]
     filts = [o[1]["filter"] if o[0] == "ok" else [] for o in raw]
+    dets = [o[1]["detbin"] if o[0] == "ok" else [] for o in raw]
     reqs, owner = [], []
     for ci, (c, o) in enumerate(zip(cases, outs)):
         reqs.append(to_request(c, o, filts[ci])); owner.append((ci, None))
+        if dets[ci]:
+            reqs.append(["detbin", rat(EPS), [[enc_mat(A2), enc_vec(b2), list(i2), n2]
+                                              for _, A2, b2, i2, n2, _ in dets[ci]]])
+            owner.append((ci, "detbin"))
         for k, rq in bnb_requests(c, o):
             reqs.append(rq); owner.append((ci, k))
     replies = Driver("Lp").run(reqs, chunks=16)
@@ -540,6 +737,8 @@ def run_cases(ctx, cases):
             if k is None:
                 judge(ctx, c, o, rp)
                 judge_filter(ctx, c, filts[ci], rp[3])
+            elif k == "detbin":
+                judge_detbin(ctx, c, dets[ci], rp)
             else:
                 judge_trace(ctx, c, c["configs"][k], o[1][k], rp)
         finally:
@@ -584,15 +783,53 @@ def shrink_failures(ctx, failed, limit=2):
         write_min(ctx, "C04", function, klass, small, hist)
 
 
+def gen_big_knapsack(rng):
+    """large-tree 0/1 knapsack (strongly correlated): thousands of node LPs, > 10000 simplex pivots in total with the
+    default max_iter; too big for the exhaustive oracle, judged through the certified mirror"""
+    n = 16
+    w = [rng.randint(20, 60) for _ in range(n)]
+    c = [v + 10 for v in w]
+    A = [list(w)] + [[1 if t == j else 0 for t in range(n)] for j in range(n)]
+    b = [sum(w) // 2 + rng.randint(0, 3)] + [1] * n
+    return {"family": "big_knapsack", "c": c, "A": A, "b": b, "integers": list(range(n)), "minimize": False,
+            "configs": [{"heuristics": False}, {"heuristics": False, "max_iter": 3000}, {}]}
+
+
+def add_max_iter_configs(ctx, cases):
+    """sweep `max_iter`: the mirror measures the largest pivot count of a single node LP of its default
+    heuristics=False run, the worker measures the same on the implementation's own run (the two paths can differ at
+    ties); the configuration gets the larger of the two + 2 (phase 1 and phase 2 each need one extra pass to notice
+    optimality) + a small margin, so the unchanged code still solves every node LP while any budget shared across
+    nodes runs dry after a few of them"""
+    reqs = [["bnb", enc_vec(c["c"]), enc_mat(c["A"]), enc_vec(c["b"]), sorted(c["integers"]), bool(c["minimize"]),
+             rat(EPS), DEFAULT_MAX_ITER, DEFAULT_MAX_NODES, rat(GAP_TOL), 1, None] for c in cases]
+    replies = Driver("Lp").run(reqs, chunks=16)
+    for c, rp in zip(cases, replies):
+        if rp and rp[0] == "error":
+            raise core.Infra(f"model rejected request: {rp} for {c}")
+        nodes, lp_it = rp[3], rp[7]
+        if nodes >= 3 and ctx.rng.random() < 0.6:
+            c["configs"].append({"max_iter_auto": [lp_it, ctx.rng.choice([0, 1, 3])], "heuristics": False})
+            if ctx.rng.random() < 0.3:
+                c["configs"].append({"max_iter_auto": [lp_it, ctx.rng.choice([0, 2])], "heuristics": False,
+                                     "warm": "feasible"})
+
+
 def run(ctx, budget):
     ctx.cov["rule"] = RULE
     ctx.cov["missing_theorems"] = MISSING
     cases = list(edge_cases()) + [c["case"] for c in core.load_corpus("C04")]
     n = 500 * budget
+    fresh = []
     for i in range(n):
         inst = gen_instance(ctx.rng, big=(ctx.tier == "thorough" and i % 3 == 0))
         inst["configs"] = gen_configs(ctx.rng)
-        cases.append(inst)
+        fresh.append(inst)
+    add_max_iter_configs(ctx, fresh)
+    cases += fresh
+    if ctx.tier == "thorough":
+        for t in range(3):       # spread over the request list so that they land in different driver processes
+            cases.insert((t * len(cases)) // 3, gen_big_knapsack(ctx.rng))
     failed = run_cases(ctx, cases)
     if failed and not getattr(ctx, "seed_shift", 0):
         shrink_failures(ctx, failed)
